@@ -62,6 +62,9 @@ Inductive cop :=
 | CBind                                       (* uv_tcp_bind to 127.0.0.1:0: creates the socket *)
 | CPipe (namelen : nat)                       (* uv_pipe_connect(name), namelen = strlen(name) *)
 | CPipe2 (flags : Z) (namelen : nat) (nul : bool)   (* uv_pipe_connect2 *)
+| CWrite                                      (* uv_write of one byte (its callback does nothing) *)
+| CShut                                       (* uv_shutdown (its callback does nothing) *)
+| CRead                                       (* uv_read_start (alloc/read callbacks do nothing) *)
 | CClose
 | CRun.
 
@@ -78,8 +81,11 @@ Record cst := mkCs {
                              connect was pending, linked on connect_req->queue, in call order *)
   cpfix : bool;           (* false: the current code.  true: the code with
                              notes/C07_fix_pipe_connect_ealready.diff *)
-  creg : nat              (* loop->active_reqs.count as far as this handle's requests go:
+  creg : nat;             (* loop->active_reqs.count as far as this handle's connect requests go:
                              +1 at every uv__req_init, -1 at every uv__req_unregister *)
+  cwr : bool              (* UV_HANDLE_WRITABLE as far as the scripts rely on it: set where uv__stream_open /
+                             maybe_new_socket set it, cleared by uv_shutdown and (conservatively, a read error
+                             clears the flag) by uv_read_start *)
 }.
 
 Definition next_z (l : list Z) : Z * list Z := match l with [] => (0, []) | a :: r => (a, r) end.
@@ -92,38 +98,40 @@ Fixpoint connect_loop (l : list Z) : Z * list Z :=
   | a :: r => if a =? UV_EINTR then connect_loop r else (a, r)
   end.
 
-Definition upd_s (x : cst) (s : cstream) : cst := mkCs s (co x) (nreq x) (ccbn x) (cchain x) (cpfix x) (creg x).
+Definition pending (s : cstream) : bool := match c_req s with Some _ => true | None => false end.
+
+Definition upd_s (x : cst) (s : cstream) : cst := mkCs s (co x) (nreq x) (ccbn x) (cchain x) (cpfix x) (creg x) (cwr x).
 
 Definition tcp_connect (x : cst) : cst * list cev :=
   let s := cs x in let r := nreq x in
-  let out (s : cstream) (o : corc) :=
+  let out (s : cstream) (o : corc) (wr : bool) :=
       (mkCs (mkC (c_tcp s) (c_fd s) (Some r) (c_delayed s) true
                  (if c_delayed s =? 0 then c_fed s else true) (c_closing s) (c_closed s))
-            o (S r) (ccbn x) (cchain x) (cpfix x) (S (creg x)), [CRet r 0]) in
+            o (S r) (ccbn x) (cchain x) (cpfix x) (S (creg x)) wr, [CRet r 0]) in
   match c_req s with
-  | Some _ => (mkCs s (co x) (S r) (ccbn x) (cchain x) (cpfix x) (creg x), [CRet r UV_EALREADY])
+  | Some _ => (mkCs s (co x) (S r) (ccbn x) (cchain x) (cpfix x) (creg x) (cwr x), [CRet r UV_EALREADY])
   | None =>
-    if negb (c_delayed s =? 0) then out s (co x) else
+    if negb (c_delayed s =? 0) then out s (co x) (cwr x) else
     let '(serr, so') := if c_fd s then (0, o_sock (co x)) else next_z (o_sock (co x)) in
     if negb (serr =? 0) then
-      (mkCs s (mkO so' (o_conn (co x)) (o_so (co x)) (o_ready (co x))) (S r) (ccbn x) (cchain x) (cpfix x) (creg x), [CRet r serr])
+      (mkCs s (mkO so' (o_conn (co x)) (o_so (co x)) (o_ready (co x))) (S r) (ccbn x) (cchain x) (cpfix x) (creg x) (cwr x), [CRet r serr])
     else
       let s1 := mkC (c_tcp s) true (c_req s) (c_delayed s) (c_pollout s) (c_fed s) (c_closing s) (c_closed s) in
       let (a, cn') := connect_loop (o_conn (co x)) in
       let o' := mkO so' cn' (o_so (co x)) (o_ready (co x)) in
-      if (a =? 0) || (a =? UV_EINPROGRESS) then out s1 o'
+      if (a =? 0) || (a =? UV_EINPROGRESS) then out s1 o' true
       else if a =? UV_ECONNREFUSED then
-        out (mkC (c_tcp s1) true (c_req s1) UV_ECONNREFUSED (c_pollout s1) (c_fed s1) (c_closing s1) (c_closed s1)) o'
-      else (mkCs s1 o' (S r) (ccbn x) (cchain x) (cpfix x) (creg x), [CRet r a])
+        out (mkC (c_tcp s1) true (c_req s1) UV_ECONNREFUSED (c_pollout s1) (c_fed s1) (c_closing s1) (c_closed s1)) o' true
+      else (mkCs s1 o' (S r) (ccbn x) (cchain x) (cpfix x) (creg x) true, [CRet r a])
   end.
 
 Definition bind_busy (busy : bool) (x : cst) : cst * list cev :=
   let s := cs x in
   let '(serr, so') := if c_fd s then (0, o_sock (co x)) else next_z (o_sock (co x)) in
   let o' := mkO so' (o_conn (co x)) (o_so (co x)) (o_ready (co x)) in
-  if negb (serr =? 0) then (mkCs s o' (nreq x) (ccbn x) (cchain x) (cpfix x) (creg x), [])
+  if negb (serr =? 0) then (mkCs s o' (nreq x) (ccbn x) (cchain x) (cpfix x) (creg x) (cwr x), [])
   else (mkCs (mkC (c_tcp s) true (c_req s) (if busy then UV_EADDRINUSE else 0) (c_pollout s) (c_fed s) (c_closing s) (c_closed s))
-             o' (nreq x) (ccbn x) (cchain x) (cpfix x) (creg x), []).
+             o' (nreq x) (ccbn x) (cchain x) (cpfix x) (creg x) (cwr x), []).
 
 (* the part of uv_pipe_connect2 after "out:" and the error branch of uv_pipe_connect:
    delayed_error = err; connect_req = req; feed when err != 0 *)
@@ -144,28 +152,28 @@ Definition pipe_connect2_body (x : cst) (flags : Z) (namelen : nat) (nul : bool)
   let '(serr, so') := if new_sock then next_z (o_sock (co x)) else (0, o_sock (co x)) in
   if serr <? 0 then
     let (s', e) := pipe_out s r serr in
-    (mkCs s' (mkO so' (o_conn (co x)) (o_so (co x)) (o_ready (co x))) (nreq x) (ccbn x) (cchain x) (cpfix x) (S (creg x)), e, None)
+    (mkCs s' (mkO so' (o_conn (co x)) (o_so (co x)) (o_ready (co x))) (nreq x) (ccbn x) (cchain x) (cpfix x) (S (creg x)) (cwr x), e, None)
   else
     let s1 := mkC (c_tcp s) true (c_req s) (c_delayed s) (c_pollout s) (c_fed s) (c_closing s) (c_closed s) in
     let (a, cn') := connect_loop (o_conn (co x)) in
     let o' := mkO so' cn' (o_so (co x)) (o_ready (co x)) in
     if (a =? 0) || (a =? UV_EINPROGRESS) then
       let s2 := mkC (c_tcp s1) true (c_req s1) (c_delayed s1) true (c_fed s1) (c_closing s1) (c_closed s1) in
-      let (s', e) := pipe_out s2 r 0 in (mkCs s' o' (nreq x) (ccbn x) (cchain x) (cpfix x) (S (creg x)), e, None)
+      (* uv__stream_open (READABLE | WRITABLE) only if (new_sock) *)
+      let (s', e) := pipe_out s2 r 0 in
+      (mkCs s' o' (nreq x) (ccbn x) (cchain x) (cpfix x) (S (creg x)) (if new_sock then true else cwr x), e, None)
     else
-      let (s', e) := pipe_out s1 r a in (mkCs s' o' (nreq x) (ccbn x) (cchain x) (cpfix x) (S (creg x)), e, None).
-
-Definition pending (s : cstream) : bool := match c_req s with Some _ => true | None => false end.
+      let (s', e) := pipe_out s1 r a in (mkCs s' o' (nreq x) (ccbn x) (cchain x) (cpfix x) (S (creg x)) (cwr x), e, None).
 
 Definition pipe_connect2 (x : cst) (flags : Z) (namelen : nat) (nul : bool) : cst * list cev :=
   let r := nreq x in
   if cpfix x && pending (cs x) then      (* fix: if (handle->connect_req != NULL) return UV_EALREADY; *)
-    (mkCs (cs x) (co x) (S r) (ccbn x) (cchain x) (cpfix x) (creg x), [CRet r UV_EALREADY])
+    (mkCs (cs x) (co x) (S r) (ccbn x) (cchain x) (cpfix x) (creg x) (cwr x), [CRet r UV_EALREADY])
   else
   let '(x', e, res) := pipe_connect2_body x flags namelen nul in
   match res with
-  | Some err => (mkCs (cs x') (co x') (S r) (ccbn x') (cchain x') (cpfix x') (creg x'), e ++ [CRet r err])
-  | None => (mkCs (cs x') (co x') (S r) (ccbn x') (cchain x') (cpfix x') (creg x'), e ++ [CRet r 0])
+  | Some err => (mkCs (cs x') (co x') (S r) (ccbn x') (cchain x') (cpfix x') (creg x') (cwr x'), e ++ [CRet r err])
+  | None => (mkCs (cs x') (co x') (S r) (ccbn x') (cchain x') (cpfix x') (creg x') (cwr x'), e ++ [CRet r 0])
   end.
 
 (* void uv_pipe_connect: an error return of uv_pipe_connect2 becomes a delayed error *)
@@ -173,13 +181,13 @@ Definition pipe_connect (x : cst) (namelen : nat) : cst * list cev :=
   let r := nreq x in
   if cpfix x && pending (cs x) then      (* fix: UV_EALREADY from uv_pipe_connect2; the request is linked
                                             behind the pending one and told later *)
-    (mkCs (cs x) (co x) (S r) (ccbn x) (cchain x ++ [r]) (cpfix x) (S (creg x)), [CRet r 0])
+    (mkCs (cs x) (co x) (S r) (ccbn x) (cchain x ++ [r]) (cpfix x) (S (creg x)) (cwr x), [CRet r 0])
   else
   let '(x', e, res) := pipe_connect2_body x 0 namelen false in
   match res with
   | Some err => let (s', e') := pipe_out (cs x') r err in
-                (mkCs s' (co x') (S r) (ccbn x') (cchain x') (cpfix x') (S (creg x')), e ++ e' ++ [CRet r 0])
-  | None => (mkCs (cs x') (co x') (S r) (ccbn x') (cchain x') (cpfix x') (creg x'), e ++ [CRet r 0])
+                (mkCs s' (co x') (S r) (ccbn x') (cchain x') (cpfix x') (S (creg x')) (cwr x'), e ++ e' ++ [CRet r 0])
+  | None => (mkCs (cs x') (co x') (S r) (ccbn x') (cchain x') (cpfix x') (creg x') (cwr x'), e ++ [CRet r 0])
   end.
 
 (* uv_close on the stream: uv__io_close (stop, leave the pending queue), descriptor closed *)
@@ -190,10 +198,28 @@ Definition cclose (x : cst) : cst * list cev :=
 
 (* what a callback (or the program between iterations) may do; connect calls on a
    closing handle are outside the API contract and skipped (the harness does the same) *)
+(* uv_write / uv_shutdown / uv_read_start as far as the connect machinery can see them: with
+   a descriptor, nothing queued and the stream still writable, uv_write completes (or fails) in
+   the call and uv__write_req_finish feeds the watcher; uv_shutdown with an empty queue feeds
+   it too.  The write and shutdown requests themselves are C05's; the harness keeps them out
+   of the request count it reports. *)
+Definition aux_op (x : cst) (o : cop) : cst * list cev :=
+  let s := cs x in
+  if c_closing s || negb (c_fd s) || pending s then (x, []) else
+  let fed := mkC (c_tcp s) (c_fd s) (c_req s) (c_delayed s) (c_pollout s) true (c_closing s) (c_closed s) in
+  match o with
+  | CWrite => if cwr x then (upd_s x fed, []) else (x, [])       (* not writable: UV_EPIPE, nothing happens *)
+  | CShut => if cwr x then (mkCs fed (co x) (nreq x) (ccbn x) (cchain x) (cpfix x) (creg x) false, [])
+             else (x, [])                                         (* UV_ENOTCONN *)
+  | CRead => (mkCs s (co x) (nreq x) (ccbn x) (cchain x) (cpfix x) (creg x) false, [])
+  | _ => (x, [])
+  end.
+
 Definition cexec_simple (x : cst) (o : cop) : cst * list cev :=
   match o with
   | CClose => cclose x
   | CRun => (x, [])
+  | CWrite | CShut | CRead => aux_op x o
   | _ =>
     if c_closing (cs x) then (x, []) else
     match o with
@@ -214,14 +240,14 @@ Fixpoint cexec_cb (x : cst) (os : list cop) : cst * list cev :=
   end.
 
 Definition run_cb (x : cst) (beh : nat -> list cop) : cst * list cev :=
-  cexec_cb (mkCs (cs x) (co x) (nreq x) (S (ccbn x)) (cchain x) (cpfix x) (creg x)) (beh (ccbn x)).
+  cexec_cb (mkCs (cs x) (co x) (nreq x) (S (ccbn x)) (cchain x) (cpfix x) (creg x) (cwr x)) (beh (ccbn x)).
 
 (* variant [cpfix]: the requests that were linked behind the completed one get their
    callback (UV_EALREADY, or UV_ECANCELED when the handle is destroyed), in call order *)
 Fixpoint reject (ch : list nat) (st : Z) (src : csrc) (x : cst) (beh : nat -> list cop) : cst * list cev :=
   match ch with
   | [] => (x, [])
-  | q :: t => let (x1, e1) := run_cb (mkCs (cs x) (co x) (nreq x) (ccbn x) (cchain x) (cpfix x) (pred (creg x))) beh in
+  | q :: t => let (x1, e1) := run_cb (mkCs (cs x) (co x) (nreq x) (ccbn x) (cchain x) (cpfix x) (pred (creg x)) (cwr x)) beh in
               let (x2, e2) := reject t st src x1 beh in (x2, CCb q st src :: e1 ++ e2)
   end.
 
@@ -238,10 +264,10 @@ Definition stream_connect (x : cst) (beh : nat -> list cop) : cst * list cev :=
       else
         let (e, so') := next_z (o_so (co x)) in
         (e, SrcSo, s, mkO (o_sock (co x)) (o_conn (co x)) so' (o_ready (co x))) in
-    if error =? UV_EINPROGRESS then (mkCs s1 o' (nreq x) (ccbn x) (cchain x) (cpfix x) (creg x), [])
+    if error =? UV_EINPROGRESS then (mkCs s1 o' (nreq x) (ccbn x) (cchain x) (cpfix x) (creg x) (cwr x), [])
     else
       let s2 := mkC (c_tcp s1) (c_fd s1) None (c_delayed s1) false (c_fed s1) (c_closing s1) (c_closed s1) in
-      let (x1, e1) := run_cb (mkCs s2 o' (nreq x) (ccbn x) [] (cpfix x) (pred (creg x))) beh in
+      let (x1, e1) := run_cb (mkCs s2 o' (nreq x) (ccbn x) [] (cpfix x) (pred (creg x)) (cwr x)) beh in
       let (x2, e2) := reject (cchain x) UV_EALREADY SrcRejected x1 beh in
       (x2, CCb r error src :: e1 ++ e2)
   end.
@@ -276,7 +302,7 @@ Definition destroy (x : cst) (beh : nat -> list cop) : cst * list cev :=
   let s := cs x in
   let s1 := mkC (c_tcp s) (c_fd s) None (c_delayed s) (c_pollout s) (c_fed s) true true in
   match c_req s with
-  | Some r => let (x1, e1) := run_cb (mkCs s1 (co x) (nreq x) (ccbn x) [] (cpfix x) (pred (creg x))) beh in
+  | Some r => let (x1, e1) := run_cb (mkCs s1 (co x) (nreq x) (ccbn x) [] (cpfix x) (pred (creg x)) (cwr x)) beh in
               let (x2, e2) := reject (cchain x) UV_ECANCELED SrcCancel x1 beh in
               (x2, CCb r UV_ECANCELED SrcCancel :: e1 ++ e2 ++ [CClosed])
   | None => (upd_s x s1, [CClosed])
@@ -284,7 +310,7 @@ Definition destroy (x : cst) (beh : nat -> list cop) : cst * list cev :=
 
 Definition run_iter (x : cst) (beh : nat -> list cop) : cst * list cev :=
   let (rdy, rd') := next_b (o_ready (co x)) in
-  let x0 := mkCs (cs x) (mkO (o_sock (co x)) (o_conn (co x)) (o_so (co x)) rd') (nreq x) (ccbn x) (cchain x) (cpfix x) (creg x) in
+  let x0 := mkCs (cs x) (mkO (o_sock (co x)) (o_conn (co x)) (o_so (co x)) rd') (nreq x) (ccbn x) (cchain x) (cpfix x) (creg x) (cwr x) in
   let (x1, e1) := run_pending x0 beh in
   let (x2, e2) := if c_pollout (cs x1) && rdy && negb (c_closing (cs x1))
                   then stream_io x1 beh else (x1, []) in
@@ -306,7 +332,7 @@ Fixpoint crun (x : cst) (os : list cop) (beh : nat -> list cop) : cst * list cev
   end.
 
 Definition cinit (pfix : bool) (tcp : bool) (o : corc) : cst :=
-  mkCs (mkC tcp false None 0 false false false false) o 0 0 [] pfix 0.
+  mkCs (mkC tcp false None 0 false false false false) o 0 0 [] pfix 0 false.
 
 (* ------------------------------------------------------------------ *)
 (* uv__check_before_write and its two callers *)
